@@ -297,6 +297,13 @@ def run(ctx: Ctx, tier: str) -> Result:
     if gh is not gi:
         # the text handed to the parsing helper plays the part of int()'s argument
         conv_sites = [(gi, c) for c in t.calls_in(gi) if t.resolve_call(c, gi).repo and c.args][:1]
+    for _gf, c_ in conv_sites:
+        # the text is converted by int() itself: int(float(text)) also takes 'inf' / '1e999' (OverflowError, which the guard for
+        # unparsable text does not catch) and 'nan', and silently truncates '0.5'
+        inner_ = [n_ for a_ in c_.args for n_ in ast.walk(a_) if isinstance(n_, ast.Call) and "builtins.float" in t.resolve_call(n_, _gf).ext]
+        if inner_ and "builtins.int" in t.resolve_call(c_, _gf).ext:
+            res.fail(Finding("C04.INT", _gf.qname, c_, _gf.loc(c_), "`%s` reads the limit through float(): 'inf' and '1e999' raise OverflowError past the guard for unparsable "
+                             "text (into the code registering the tracepoint, or at every hit), 'nan' and fractions are taken instead of the default" % norm(c_)[:50]))
     if conv_sites:
         for _gf, c_ in conv_sites:
             arg_ = c_.args[0] if c_.args else None
